@@ -206,6 +206,18 @@ func debugMain(args []string) {
 	}
 	for _, r := range a.Returns {
 		fmt.Printf("RETURN %s: %v\n", p.InstrPos(r.Instr), r.Results)
+		if len(args) > 1 && args[1] == "ev" {
+			var must, may []string
+			for _, k := range sortedKeys(r.State.may) {
+				if r.State.must[k] {
+					must = append(must, k)
+				} else {
+					may = append(may, k)
+				}
+			}
+			fmt.Printf("    must: %s\n    may:  %s\n", strings.Join(must, " "), strings.Join(may, " "))
+			continue
+		}
 		for _, e := range r.Results {
 			ec := p.classifyErr(r.State, e)
 			if ec.Notif != nil {
